@@ -26,6 +26,7 @@ import common  # noqa: E402
 
 DEFAULT_CASE_TIMEOUT = 60.0
 GRACE_AFTER_BUDGET = 10.0
+MAX_STORED_PER_KIND = 25  # failures beyond this are counted in "failure_counts" but not stored / given a replay file
 
 
 def case_hash(case) -> str:
@@ -118,11 +119,14 @@ def run_property(prop, seed, tier, budget, jobs, out_path):
     workers = [Worker(ctx, prop) for _ in range(max(1, jobs))]
     res = {"property": prop, "seed": seed, "tier": tier, "bound": mod.BOUND, "evaluations": 0, "distinct_nontrivial": 0,
            "rule": getattr(mod, "RULE", "every evaluated case counts as non-trivial"), "skipped_timeouts": 0, "abandoned_at_budget": 0,
-           "failures": [], "samples": [], "harness_errors": [], "repo": common.REPO}
+           "failures": [], "failure_counts": {}, "samples": [], "harness_errors": [], "repo": common.REPO}
     exhausted = False
     abort = None
 
     def record_failure(case, f):
+        if res["failure_counts"].get(f["kind"], 0) >= MAX_STORED_PER_KIND:
+            res["failure_counts"][f["kind"]] += 1
+            return
         h = case_hash(case)
         rel = os.path.join("bounded", "replays", f"{prop}-{h}.json")
         path = os.path.join(HERE, "replays", f"{prop}-{h}.json")
@@ -130,6 +134,7 @@ def run_property(prop, seed, tier, budget, jobs, out_path):
         if not os.path.exists(path):
             with open(path, "w") as fh:
                 json.dump({"property": prop, "case": case}, fh, indent=1, sort_keys=True)
+        res["failure_counts"][f["kind"]] = res["failure_counts"].get(f["kind"], 0) + 1
         g = dict(f)
         g["case"] = case
         g["replay"] = rel
@@ -233,11 +238,9 @@ def run_property(prop, seed, tier, budget, jobs, out_path):
     if out_path:
         with open(out_path, "w") as fh:
             json.dump(res, fh, indent=1, sort_keys=True, default=repr)
-    kinds = {}
-    for f in res["failures"]:
-        kinds[f["kind"]] = kinds.get(f["kind"], 0) + 1
+    kinds = res["failure_counts"]
     print(f"{prop} seed={seed} tier={tier}: evaluations={res['evaluations']} nontrivial={res['distinct_nontrivial']} "
-          f"failures={len(res['failures'])} {kinds if kinds else ''} skipped_timeouts={res['skipped_timeouts']} "
+          f"failures={sum(kinds.values())} {kinds if kinds else ''} skipped_timeouts={res['skipped_timeouts']} "
           f"abandoned={res['abandoned_at_budget']} harness_errors={len(res['harness_errors'])} wall={res['wall_s']}s")
     for f in res["failures"][:10]:
         print(f"  FAIL {f['kind']}: {f['clause']} | {f['detail'][:200]} | replay {f['replay']}")
